@@ -213,7 +213,7 @@ def extend(g, api):
 
     def peer_clamp():
         b = body(MT, 'on_peer_max_udp_payload_size_received')
-        m = find(r'^\{ self\.current_mtu = (self\.current_mtu\.min\(peer_max_udp_payload_size\)); if let Some\(state\) = self\.state\.as_mut\(\) \{ '
+        m = find(r'^\{ self\.current_mtu = (self\.current_mtu\.min\(peer_max_udp_payload_size\)); self\.peer_max_udp_payload_size = peer_max_udp_payload_size; if let Some\(state\) = self\.state\.as_mut\(\) \{ '
                  r'debug_assert!\( !matches!\(state\.phase, Phase::Searching\(_\)\), "[^"]*" \); state\.peer_max_udp_payload_size = peer_max_udp_payload_size; \} \}$', b, 'on_peer_max_udp_payload_size_received')
         return translate_expr(m.group(1), {'self.current_mtu': 'currentMtu', 'peer_max_udp_payload_size': 'peerMax'})
     fun('mtudPeerClamp', ['currentMtu', 'peerMax'], 'Nat', MT + '::MtuDiscovery::on_peer_max_udp_payload_size_received', peer_clamp)
@@ -330,15 +330,22 @@ def extend(g, api):
             b = body(MT, 'on_acked')
             find(r'^\{ if space != SpaceId::Data \{ return false; \} if let Some\(new_mtu\) = self \.state \.as_mut\(\) \.and_then\(\|state\| state\.on_probe_acked\(pn\)\) \{ '
                  r'self\.current_mtu = new_mtu; trace!\([^;]*\); self\.black_hole_detector\.on_probe_acked\(pn, len\); true \} else \{ self\.black_hole_detector\.on_non_probe_acked\(pn, len\); false \} \}$', b, 'MtuDiscovery::on_acked')
-        elif which == 'bhd':
+            return 1
+        if which == 'bhd':
             b = body(MT, 'black_hole_detected', after='impl MtuDiscovery')
-            find(r'^\{ if !self\.black_hole_detector\.black_hole_detected\(\) \{ return false; \} self\.current_mtu = self\.black_hole_detector\.min_mtu; '
-                 r'if let Some\(state\) = &mut self\.state \{ state\.on_black_hole_detected\(now\); \} true \}$', b, 'MtuDiscovery::black_hole_detected')
-        else:
+            m = find(r'^\{ if !self\.black_hole_detector\.black_hole_detected\(\) \{ return false; \} self\.current_mtu = (self\.current_mtu\.(?:min|max)\(self\.black_hole_detector\.min_mtu\)); '
+                     r'if let Some\(state\) = &mut self\.state \{ state\.on_black_hole_detected\(now\); \} true \}$', b, 'MtuDiscovery::black_hole_detected')
+            return translate_expr(m.group(1), {'self.current_mtu': 'currentMtu', 'self.black_hole_detector.min_mtu': 'minMtu'})
+        if which == 'reset':
             b = body(MT, 'reset')
-            find(r'^\{ self\.current_mtu = current_mtu; if let Some\(state\) = self\.state\.take\(\) \{ self\.state = Some\(EnabledMtuDiscovery::new\(state\.config\)\); '
-                 r'self\.on_peer_max_udp_payload_size_received\(state\.peer_max_udp_payload_size\); \} self\.black_hole_detector = BlackHoleDetector::new\(min_mtu\); \}$', b, 'MtuDiscovery::reset')
-        return 1
+            m = find(r'^\{ self\.current_mtu = current_mtu; if let Some\(state\) = self\.state\.take\(\) \{ self\.state = Some\(EnabledMtuDiscovery::new\(state\.config\)\); '
+                     r'self\.on_peer_max_udp_payload_size_received\(state\.peer_max_udp_payload_size\); \} else \{ self\.current_mtu = (self\.current_mtu\.(?:min|max)\(self\.peer_max_udp_payload_size\)); \} '
+                     r'self\.black_hole_detector = BlackHoleDetector::new\(min_mtu\); \}$', b, 'MtuDiscovery::reset')
+            return translate_expr(m.group(1), {'self.current_mtu': 'currentMtu', 'self.peer_max_udp_payload_size': 'peerMax'})
+        b = body(MT, 'with_state')
+        m = find(r'^\{ Self \{ current_mtu, state, black_hole_detector: BlackHoleDetector::new\(min_mtu\), peer_max_udp_payload_size: (\w+), \} \}$', b, 'MtuDiscovery::with_state')
+        return translate_expr(m.group(1), {'MAX_UDP_PAYLOAD': 'maxUdpPayload'})
     g.nat('mtudOnAckedShape', MT + '::MtuDiscovery::on_acked (shape check)', lambda: outer('acked'))
-    g.nat('mtudBlackHoleDetectedShape', MT + '::MtuDiscovery::black_hole_detected (shape check)', lambda: outer('bhd'))
-    g.nat('mtudResetShape', MT + '::MtuDiscovery::reset (shape check)', lambda: outer('reset'))
+    fun('mtudBlackHoleMtu', ['currentMtu', 'minMtu'], 'Nat', MT + '::MtuDiscovery::black_hole_detected new current_mtu', lambda: outer('bhd'))
+    fun('mtudResetClamp', ['currentMtu', 'peerMax'], 'Nat', MT + '::MtuDiscovery::reset with discovery disabled: peer limit re-applied', lambda: outer('reset'))
+    g.nat('mtudInitialPeerMax', MT + '::MtuDiscovery::with_state remembered peer limit before the transport parameters arrive', lambda: outer('with_state'))
